@@ -94,6 +94,7 @@ Proof.
       intros y Hy. simpl in Hy. apply in_app_or in Hy. destruct Hy as [Hy|[<-|[]]]; [apply (H y Hy)|apply enodup_nil].
     - intros l s0 H y Hy. simpl in Hy. apply filter_In in Hy. apply H. tauto.
     - intros a s0 H. exact H.
+    - intros s0 H y' Hy'. simpl in Hy'. apply in_map_iff in Hy'. destruct Hy' as [y [<- Hy]]. apply enodup_nil.
     - intros ns s0 H y' Hy'. simpl in Hy'. apply in_map_iff in Hy'. destruct Hy' as [y [<- Hy]]. simpl.
       apply enodup_map; auto. apply enodup_filter. apply (H y Hy).
     - constructor; [|constructor]. destruct cls; intros y Hy; simpl in Hy.
